@@ -13,6 +13,7 @@ RULE = ('bus monitor (credit per session, pacing) over seeded runs of: (a) real 
         '0-3 holds, (b) real stack as responder vs the reference originator with RTS limit 1..255, (c) two real stacks with max_cmdt 1..255 each, '
         '(d) BAM from an otherwise idle stack; minimum_tp_bam_dt_interval in {default, 10..190 ms}, minimum_tp_rts_cts_dt_interval in {None, 1..50 ms}; '
         'both data link layers; latency [0, 5 ms]. non-trivial = at least one data packet was judged by the monitor; distinct = distinct scenario JSON')
+FAULT_COUNTERS = {'legal peer freedom: hold CTS seen': 'holds_seen'}
 REQUIRED_PROBES = ['dt_judged', 'cts_judged', 'holds_seen', 'bam_gaps_judged', 'cmdt_gaps_judged']
 S_ADDR, P_ADDR = 0x31, 0x52
 
